@@ -249,7 +249,20 @@ def run_reads(chk, F):
            "%s:%s" % (rfn["file"], rfn["line"]))
     # isCompileTimeComputable accepts only symbols from the computable set (or functions, whose reads were added)
     ifn = _fn(F, "isCompileTimeComputable")
-    names = {c.get("name") for c in calls(ifn["body"])}
+    # the test may be delegated to a helper (e.g. a method of the computable-values object): follow resolved
+    # callees with a body inside the type checker's own translation unit
+    names, todo, seen = set(), [ifn], set()
+    while todo:
+        f = todo.pop()
+        if f["q"] in seen or len(seen) > 6:
+            continue
+        seen.add(f["q"])
+        for c in calls(f["body"]):
+            names.add(c.get("name"))
+            if c.get("fn", "").startswith("UTAP::") and c.get("name") not in ("collect_possible_reads", "contains"):
+                for t in F.fns(c["fn"]):
+                    if t.get("body") is not None and (t.get("file") or "").endswith("typechecker.cpp"):
+                        todo.append(t)
     ok = "collect_possible_reads" in names and "all_of" in names and "contains" in names
     chk.ob(rid, "isCompileTimeComputable", ok,
            "isCompileTimeComputable is not `all reads are in the computable set`", "%s:%s" % (ifn["file"], ifn["line"]))
@@ -506,6 +519,40 @@ def _c12_rest(chk, F, rid):
         chk.ob(rid, "type_t::%s|CONSTANT" % mname, val is want,
                "type_t::%s does not return %s for a CONSTANT-prefixed type" % (mname, want),
                "%s:%s" % (m["file"], m["line"]))
+    # aggregates: a record is mutable only if *every* field is (a write to the record, or passing it to a
+    # non-const reference, reaches all fields); dually it is constant only if every field is
+    for mname in ("is_mutable", "is_constant"):
+        m = F.fn("UTAP::type_t::" + mname)
+        verdict, detail = None, ""
+        for labels, stmts in switch_cases(m):
+            if "RECORD" not in labels:
+                continue
+            body = {"k": "block", "s": stmts}
+            names = [c.get("name") for c in calls(body)]
+            rec = mname in names
+            if "all_of" in names and rec and "any_of" not in names and "none_of" not in names:
+                verdict = True
+            elif "any_of" in names or "none_of" in names:
+                verdict, detail = False, "uses %s over the fields" % ("any_of" if "any_of" in names else "none_of")
+            else:
+                # loop form: `for (f : fields) if (!f.is_x()) return false; return true;`
+                loops = [n for n in walk(body) if n.get("k") in ("for", "rangefor", "while")]
+                early_false = any((r.get("e") or {}).get("v") is False for lp in loops for r in walk(lp)
+                                  if r.get("k") == "return")
+                early_true = any((r.get("e") or {}).get("v") is True for lp in loops for r in walk(lp)
+                                 if r.get("k") == "return")
+                if loops and rec and early_false and not early_true:
+                    verdict = True
+                elif loops and rec and early_true:
+                    verdict, detail = False, "returns true as soon as one field qualifies"
+        if verdict is None:
+            raise AnalysisBroken("type_t::%s: the RECORD case is not in a recognised form" % mname)
+        chk.ob(rid, "type_t::%s|RECORD|all-fields" % mname, verdict,
+               "type_t::%s(RECORD) %s: a record with one %s field counts as %s, so a write that selects into its "
+               "constant part passes isModifiableLValue (which tests the root object only)" %
+               (mname, detail, "mutable" if mname == "is_mutable" else "constant",
+                "mutable" if mname == "is_mutable" else "constant") if not verdict else
+               "type_t::%s(RECORD) requires every field" % mname, "%s:%s" % (m["file"], m["line"]))
     # binders forced const
     for q, what in (("UTAP::ExpressionBuilder::expr_forall_begin", "quantifier binder"),
                     ("UTAP::StatementBuilder::iteration_begin", "iteration variable"),
@@ -784,3 +831,148 @@ def run_restricted(chk, F):
     chk.ob(rid, "gate|visitProcess", gate,
            "visitProcess does not reject an unbound parameter that is in the process's restricted set",
            "%s:%s" % (vp["file"], vp["line"]))
+
+
+# ---------------------------------------------------------------------------------------------- pass ordering
+def reach(F, CG, roots, maxdepth=6):
+    """Functions reachable from roots through resolved calls (class-hierarchy analysis for virtual calls)."""
+    seen, todo = {}, [(r, 0, None) for r in roots]
+    while todo:
+        fn, d, via = todo.pop()
+        key = (fn["q"], fn.get("sig"))
+        if key in seen:
+            continue
+        seen[key] = (fn, via)
+        if d >= maxdepth or fn.get("body") is None:
+            continue
+        for c in calls(fn["body"]):
+            for t in CG.targets(c):
+                todo.append((t, d + 1, fn["q"]))
+    return seen
+
+
+def run_prepass(chk, F, CG, fields=("depends", "changes"), rid="R-PREPASS"):
+    """function_t::depends / ::changes are computed by TypeChecker::visitFunction while the document is visited.
+    A visitor that the TypeChecker *constructor* runs over the document sees them empty, so nothing reachable from it
+    may consult them (a call would look as if it read and wrote nothing)."""
+    chk.rule(rid, "no function reachable from a visitor that the TypeChecker constructor runs over the document reads "
+                  "function_t::depends or function_t::changes (they are filled later, by TypeChecker::visitFunction: "
+                  "before that, every call looks as if it read and wrote nothing)")
+    ctor = None
+    for fn in F.fns("UTAP::TypeChecker::TypeChecker"):
+        ctor = fn
+    if ctor is None:
+        raise AnalysisBroken("TypeChecker constructor not found")
+    # the writer of the fields must be TypeChecker::visitFunction (otherwise the premise of this rule is gone)
+    vf = _fn(F, "visitFunction") if False else F.fn("UTAP::TypeChecker::visitFunction")
+    writes = {n.get("name") for n in walk(vf["body"]) if n.get("k") == "member" and n.get("of") == "UTAP::function_t"}
+    for fld in fields:
+        if fld not in writes:
+            raise AnalysisBroken("TypeChecker::visitFunction no longer computes function_t::%s" % fld)
+    classes = []
+    for c in calls(ctor["body"]):
+        if c.get("name") == "accept" and c.get("args"):
+            t = (c["args"][0].get("t") or "").replace("&", "").strip()
+            if t in F.records:
+                classes.append(t)
+    if not classes:
+        chk.ob(rid, "constructor-visitors", True, "the TypeChecker constructor runs no visitor over the document")
+        return
+    for cls in classes:
+        roots = [fn for fn in F.functions.values() if fn.get("cls") == cls and fn["name"].startswith("visit")]
+        if not roots:
+            raise AnalysisBroken("no visit methods found for %s" % cls)
+        R = reach(F, CG, roots)
+        for fld in fields:
+            bad = []
+            for (q, _), (fn, via) in R.items():
+                for n in walk(fn.get("body")):
+                    if n.get("k") == "member" and n.get("name") == fld and n.get("of") == "UTAP::function_t":
+                        bad.append("%s (%s:%s)" % (q, (fn.get("file") or "").split("/")[-1], n.get("l")))
+            chk.ob(rid, "%s|%s" % (cls.split("::")[-1], fld), not bad,
+                   "%s runs from the TypeChecker constructor, before any function_t::%s is computed, yet reaches %s: "
+                   "a call in an expression it evaluates contributes nothing" % (cls, fld, ", ".join(sorted(set(bad))[:3]))
+                   if bad else "%s (%d functions reachable) never consults function_t::%s" % (cls, len(R), fld),
+                   "%s:%s" % (ctor["file"], ctor["line"]))
+
+
+# ---------------------------------------------------------------------------------------------- own locals only
+def run_ownlocals(chk, F, CG, fields=("changes",), rid="R-OWNLOCALS"):
+    """visitFunction computes function_t::changes / ::depends from the whole body and then removes what is local to
+    the function.  Whatever it removes must be *declared by the function*: an element of fun.variables or of the
+    body's frame (parameters).  Removal by any other criterion (a predicate on the symbol, a helper that filters the
+    set) can drop state that outlives the call - template parameters, globals."""
+    chk.rule(rid, "TypeChecker::visitFunction removes from function_t::changes / ::depends only symbols declared by "
+                  "the function itself (elements of fun.variables, elements of the body frame): every erase names "
+                  "such an element, and the set is not handed to a filtering helper")
+    vf = F.fn("UTAP::TypeChecker::visitFunction")
+
+    def is_field(n, fld):
+        return isinstance(n, dict) and n.get("k") == "member" and n.get("name") == fld and \
+            n.get("of") == "UTAP::function_t"
+
+    loopvars = {}          # id of range-for variable -> short(range)
+    for n in walk(vf["body"]):
+        if n.get("k") == "rangefor":
+            v = n.get("var") or {}
+            loopvars[v.get("id")] = short(n.get("range"))
+    for fld in fields:
+        n_erase = 0
+        for c in calls(vf["body"]):
+            recv = c.get("recv")
+            if is_field(recv, fld):
+                name = c.get("name") or c.get("op")
+                if name in ("insert", "emplace", "begin", "end", "find", "count", "size", "empty", "contains"):
+                    continue
+                n_erase += 1
+                a = (c.get("args") or [None])[0]
+                ok, why = False, "unrecognised removal `%s`" % short(c)[:80]
+                if name == "erase" and a is not None:
+                    txt = short(a)
+                    if a.get("k") == "member" and a.get("name") == "uid" and (a.get("base") or {}).get("k") == "ref" \
+                            and "variables" in loopvars.get(a["base"].get("id"), ""):
+                        ok = True
+                    elif "get_frame()[" in txt and "body" in txt:
+                        ok = True
+                    else:
+                        why = "erases `%s`, which is not an element of fun.variables or of the body frame" % txt[:80]
+                chk.ob(rid, "%s|%s" % (fld, short(c)[:70]), ok,
+                       "TypeChecker::visitFunction: %s" % why if not ok else
+                       "erases an own declaration: %s" % short(c)[:70], "%s:%s" % (vf["file"], c.get("l")))
+            else:
+                # the set handed to a function: acceptable for the collecting visitors (they only insert)
+                for a in c.get("args", []):
+                    if is_field(a, fld) or (a.get("k") == "un" and is_field(a.get("e"), fld)):
+                        removes = False
+                        for t in CG.targets(c):
+                            for x in calls(t.get("body")):
+                                if (x.get("name") or "") in ("erase", "clear", "swap", "erase_if", "remove_if", "extract"):
+                                    removes = True
+                        if removes:
+                            n_erase += 1
+                            chk.ob(rid, "%s|helper|%s" % (fld, c.get("name")), False,
+                                   "TypeChecker::visitFunction hands function_t::%s to %s, which removes elements by "
+                                   "its own criterion: symbols that are not declared by the function (template "
+                                   "parameters, globals) can be dropped from the may-%s set" %
+                                   (fld, c.get("name"), "write" if fld == "changes" else "read"),
+                                   "%s:%s" % (vf["file"], c.get("l")))
+        for n in walk(vf["body"]):
+            if n.get("k") == "construct":
+                for a in n.get("args", []):
+                    if is_field(a, fld):
+                        cls = n.get("cls") or n.get("t") or ""
+                        rem = False
+                        for q, fns in F.by_q.items():
+                            if q.startswith(cls + "::"):
+                                for f in fns:
+                                    for x in calls(f.get("body")):
+                                        if (x.get("name") or "") in ("erase", "clear") and \
+                                                (x.get("recv") or {}).get("k") == "member":
+                                            rem = True
+                        chk.ob(rid, "%s|collector|%s" % (fld, cls.split("::")[-1]), not rem,
+                               "%s, which is given function_t::%s, removes elements from it" % (cls, fld)
+                               if rem else "%s only adds to function_t::%s" % (cls, fld),
+                               "%s:%s" % (vf["file"], n.get("l")))
+        if n_erase == 0:
+            chk.note("TypeChecker::visitFunction removes nothing from function_t::%s (over-approximation: locals count "
+                     "as external)" % fld)
